@@ -191,3 +191,37 @@ func bit(b bool) string {
 	}
 	return "0"
 }
+
+// alphabetEdits: alterations that leave the base64url alphabet - padding, the standard alphabet's '+' and '/',
+// line breaks and blanks - at the places a tolerant decoder would forgive them.
+func alphabetEdits(tok string) (out []string, how []string) {
+	segs := strings.Split(tok, ".")
+	if len(segs) != 3 {
+		return
+	}
+	join := func(i int, s string) string {
+		cp := append([]string{}, segs...)
+		cp[i] = s
+		return strings.Join(cp, ".")
+	}
+	for i, name := range []string{"header", "payload", "signature"} {
+		s := segs[i]
+		add := func(t, h string) {
+			if t != s {
+				out = append(out, join(i, t))
+				how = append(how, name+"-"+h)
+			}
+		}
+		add(s+"=", "pad1")
+		add(s+"==", "pad2")
+		add(strings.Replace(s, "-", "+", 1), "plus-first")
+		add(strings.Replace(s, "_", "/", 1), "slash-first")
+		add(strings.NewReplacer("-", "+", "_", "/").Replace(s), "std-alphabet")
+		add(s+"\n", "newline-end")
+		add(s[:len(s)/2]+"\n"+s[len(s)/2:], "newline-mid")
+		add(s[:len(s)/2]+"\r\n"+s[len(s)/2:], "crlf-mid")
+		add(s+" ", "blank-end")
+		add(" "+s, "blank-start")
+	}
+	return
+}
